@@ -230,7 +230,7 @@ CHECKS = {
     "C13": {"engines": ["E3", "E1"]},
     "C14": {"engines": ["E4", "E3"], "level": "exploration"},
     "C15": {"engines": ["E3", "E1"]},
-    "C16": {"engines": [("E3", {"suite": "C16", "profiles": ("pdbg", "prel"), "all_tags": True}), ("E3", {"suite": "C16R", "profiles": ("pdbg", "prel"), "all_tags": True})], "level": "exploration"},
+    "C16": {"engines": [("E3", {"suite": "C16", "profiles": ("pdbg", "prel"), "all_tags": True}), ("E3", {"suite": "C16R", "profiles": ("pdbg", "prel"), "all_tags": True}), "E1"], "level": "exploration"},
     "C17": {"engines": [("E3", {"profiles": ("pdbg", "prel"), "diff": True}), "E1diff"], "level": "exploration"},
     "C18": {"engines": ["E1", ("E1", {"profile": "hdbg"})], "level": "fault_enumeration"},
     "C19": {"engines": ["E3"]},
